@@ -127,7 +127,8 @@ def run_impl(case):
     todays = []
     import re
     for i, k in enumerate(ks):
-        o = S.run_recipe(r, reps=k, continuation=cont, want_continuation=(i < len(ks) - 1))
+        o = S.run_recipe(r, reps=k, continuation=cont, want_continuation=(i < len(ks) - 1),
+                         draw_offset=sum(len(x.get("draws", [])) for x in runs))
         runs.append({kk: vv for kk, vv in o.items() if kk != "cont"})
         if "ok" not in o:
             break
@@ -149,7 +150,7 @@ def coq_case(case, obs):
     else:
         exp = f"(Err {C.cerr(runs[-1]['err'])})"
     ks = C.clist(C.cnat(k) for k in case["ks"])
-    return f"CHist PFull {S.recipe_coq(case['recipe'])} {ks} {exp}"
+    return f"CHist PFull {S.recipe_coq(case['recipe'], S.obs_draws(obs))} {ks} {exp}"
 
 
 def oracle(case, obs):
